@@ -125,13 +125,13 @@ class ScheduledFiniteThrust(ContinuousStateChangeEvent, metaclass=ABCMeta):
         See Also:
             :meth:`.ContinuousStateChangeEvent.__call__()`
         """
-        _ival = self.start_time - time
-        _fval = self.end_time - time
-        if fpe_equals(_ival, 0.0) or fpe_equals(_fval, 0.0):
-            return 0.0
         # [NOTE]: While thrusting, the integrator has to stop at the end of the interval to switch
-        #   the thrust off again; otherwise it has to stop at the start of the interval.
-        return _fval if self.thrusting else _ival
+        #   the thrust off again; otherwise it has to stop at the start of the interval. Only the
+        #   boundary being watched may snap to zero: a zero at the end of the interval while the
+        #   thrust is still off would be located instead of the start whenever the end coincides
+        #   with the end of the propagation, and the thrust would never be switched on.
+        _val = self.end_time - time if self.thrusting else self.start_time - time
+        return 0.0 if fpe_equals(_val, 0.0) else _val
 
     def __eq__(self, other: ScheduledFiniteThrust):
         """Check for equality between maneuver events.
